@@ -36,9 +36,9 @@ SUBST = dict(KeySeq="<- MCKeySeq", IdSeq="<- MCIdSeq", GeoSet="<- MCGeoSet", FNa
              FValSet="<- MCFValSet", PatSet="<- MCPatSet", HookSeq="<- MCHookSeq")
 
 
-def bfs(ctx, name, keys, ids, geos, fnames, vals, pats, hooks, withhooks, two, maxhist=12, timeout=900):
+def bfs(ctx, name, keys, ids, geos, fnames, vals, pats, hooks, withhooks, two, maxhist=12, timeout=900, withjson=False):
     mc = mc_module(name, "KeyspaceGen", keys, ids, geos, fnames, vals, pats, hooks)
-    cfg = ("SPECIFICATION Spec\n" + cfg_consts(MaxHist=maxhist, TwoUpdates=two, WithHooks=withhooks, **SUBST) +
+    cfg = ("SPECIFICATION Spec\n" + cfg_consts(MaxHist=maxhist, TwoUpdates=two, WithHooks=withhooks, WithJson=withjson, **SUBST) +
            "VIEW View\nINVARIANT StoredForms\nPROPERTY FailureChangesNothing NotUpdatedUnchanged Emit\n")
     r = ctx.tlc(name, ["Keyspace.tla", "KeyspaceGen.tla"], mc, cfg, timeout=timeout)
     if not r["ok"]:
@@ -113,6 +113,12 @@ def run(ctx):
     states += r["distinct"]
     trans += n
     acc(*replay(ctx, beh, "twokeys"))
+    # 2b. JSON documents (JSET / JDEL / JGET) next to plain objects, fields and deadlines
+    r, beh, n = bfs(ctx, "json", 1, 1, ["g:P1", "g:S1"], 1, ["v:0", "v:abc"], ["p:*"], 1,
+                    withhooks=False, two=False, withjson=True)
+    states += r["distinct"]
+    trans += n
+    acc(*replay(ctx, beh, "json"))
     if not ctx.quick:
         # 3. thorough: a richer one-key alphabet (kinds, equal-but-different values, two updates per command)
         r, beh, n = bfs(ctx, "rich", 1, 2, ["g:P1", "g:GE", "g:S1"], 1,
